@@ -721,5 +721,5 @@ func TestVerif_C17(t *testing.T) {
 	k := verifkit.Start(t, "C17")
 	prop := c17Prop(t, k)
 	k.Regress(t, func(sub string, raw json.RawMessage) error { return verifkit.Decode(raw, prop) })
-	verifkit.Rapid(k, t, "configurations-x-lifecycle-x-probes", k.N(1500, 60000), c17Gen, prop)
+	verifkit.Rapid(k, t, "configurations-x-lifecycle-x-probes", k.N(1500, 250000), c17Gen, prop)
 }
